@@ -67,12 +67,18 @@ func main() {
 		if c.Seed != 0 {
 			r.Seed = c.Seed
 		}
-		run.hierarchy(c.Hier, c.Case)
+		rep := 1
+		if v, err := strconv.Atoi(os.Getenv("C01_REPEAT")); err == nil && v > 0 {
+			rep = v
+		}
+		for i := 0; i < rep && r.Violations() == 0; i++ {
+			run.hierarchy(c.Hier, c.Case)
+		}
 		r.Finish(rule)
 		return
 	}
 
-	nHier := r.N(60, 600)
+	nHier := r.N(240, 3000)
 	if b := os.Getenv("C01_BATCH"); b != "" {
 		// child: run hierarchies lo..hi-1 sequentially
 		var lo, hi int
@@ -90,9 +96,9 @@ func main() {
 	if v, err := strconv.Atoi(os.Getenv("C01_WORKERS")); err == nil && v > 0 {
 		workers = v
 	}
-	per := 10
+	per := 15
 	if !r.Quick() {
-		per = 25
+		per = 50
 	}
 	type batch struct{ lo, hi int }
 	var batches []batch
@@ -222,14 +228,15 @@ func (run *runner) hierarchy(index, onlyCase int) {
 		r.Eval(1)
 		run.report(j, CaseSpec{Hier: index, Case: -1, Query: &q, Phase: "control"}, w, reply, from)
 		ok := false
+		cls, _ := classify(reply, e) // data check also on insecure paths: nothing is forged yet
 		switch {
 		case j.Sig != "":
 		case e.mustFail:
-			ok = j.Class == clsServfail
+			ok = cls == clsServfail
 			if ok {
 				r.Count("control_servfail_on_unvalidatable_path", 1)
 			}
-		case j.Class == clsTruth:
+		case cls == clsTruth:
 			wantAD := e.secure && !e.res.OptOut
 			if reply.AuthenticatedData == wantAD {
 				ok = true
@@ -246,7 +253,7 @@ func (run *runner) hierarchy(index, onlyCase int) {
 				r.Count("control_ad_missing", 1)
 			}
 		default:
-			r.Count("control_not_truth/"+j.Class, 1)
+			r.Count("control_not_truth/"+cls, 1)
 			r.Count("control_not_truth_kind/"+strings.SplitN(q.Kind, "-", 2)[1]+"/"+string(zoneModeOf(w, q)), 1)
 		}
 		if reply != nil && reply.Rcode == dns.RcodeServerFailure && q.EDNS && !hasEDE(reply) {
@@ -281,7 +288,11 @@ func (run *runner) hierarchy(index, onlyCase int) {
 
 	// ---- tamper cases ------------------------------------------------------
 	perm := r.Rand("kind-order").Perm(len(kinds))
-	for ci := 0; ci < casesPerHier; ci++ {
+	nCases := casesPerHier
+	if spec.NoAnchor {
+		nCases = 3 // nothing can validate; a few forged-data cases suffice
+	}
+	for ci := 0; ci < nCases; ci++ {
 		crng := r.RandN(fmt.Sprintf("case-%d", index), ci)
 		if onlyCase >= 0 && ci != onlyCase {
 			continue
@@ -377,7 +388,7 @@ func (run *runner) tamperCase(w *world, hier, ci int, rng *rand.Rand, perm []int
 				case roleReferral:
 					okRole = shape != "ds" && (positiveKinds[shape] || negativeKinds[shape])
 				case roleDS:
-					okRole = shape == "ds" || positiveKinds[shape]
+					okRole = shape == "ds"
 				}
 				if okRole {
 					cands = append(cands, candidate{q: q, zoneRole: zoneRole, role: role, atParent: true})
@@ -541,12 +552,14 @@ func (run *runner) tamperCase(w *world, hier, ci int, rng *rand.Rand, perm []int
 			} else if adImpossible && e.secure {
 				r.Count("tampered_reply_truth_unauthenticated/"+kind.Name+"@"+cs.Role, 1)
 			}
+		case clsPartial:
+			r.Count("tampered_reply_partial_alias_chain", 1)
 		case clsOther:
 			r.Count("tampered_reply_other", 1)
 		case clsNoReply:
 			r.Count("tampered_reply_none", 1)
 		}
-		if len(scripted) > 0 {
+		if len(scripted) > 0 && e.secure && hier%7 == 0 {
 			r.Sample(map[string]any{"pattern": w.spec.Pattern(), "kind": kind.Name, "position": cd.zoneRole + ":" + cs.Role, "servers": scripted,
 				"query": q.String(), "class": j.Class, "ad": reply != nil && reply.AuthenticatedData, "forged_responses": applied})
 		}
@@ -561,6 +574,9 @@ func (run *runner) tamperCase(w *world, hier, ci int, rng *rand.Rand, perm []int
 		fj := judge(fr, judgeCtx{q: fq, e: e, phase: "followup", kind: kind.Name, role: cs.Role, adImpossible: adImpossible && ctx.applied.Load() > 0})
 		r.Eval(1)
 		r.Count("cached_followups_judged", 1)
+		if fj.Class == clsPartial {
+			r.Count("followup_reply_partial_alias_chain", 1)
+		}
 		run.report(fj, withPhase(cs, "followup", &fq), w, fr, from)
 	}
 	if strings.HasPrefix(kind.Name, "inject-") && ctx.other != nil {
